@@ -52,7 +52,7 @@ def plan(tier, seed):
     pl.finite = [("C02-F/left-assoc-table", parsing.left_assoc_table), ("C02-F/grammar-facts", parsing.grammar_facts)]
     from vfkit import lean as _leanc
     pl.finite.append(("A6/Lean re-check of the composition lemmas L-TILE, L-LEX, L-LR", _leanc.compose_check('L-TILE', 'L-LEX', 'L-LR')))
-    ntok = 4 if tier == "quick" else 6
+    ntok = 4 if tier == "quick" else 7
 
     def roundtrip():
         return bounded.run_native("c01_roundtrip", {"max_tokens": ntok, "seed": seed, "want": ["C02"],
